@@ -789,6 +789,7 @@ impl ConnectBuilder {
 
         let mut flags = self.connect_flags_buf.unwrap_or([0b0000_0010])[0];
         flags |= 0b0000_0100; // Will flag
+        flags &= !0b0011_1000; // a will set earlier is replaced, not merged
         flags |= (qos as u8) << 3; // Will QoS
         if retain {
             flags |= 0b0010_0000; // Will retain
